@@ -71,7 +71,7 @@ def exhaustive(maxlen: int) -> list[str]:
 
 def table_variants(reserved: list[str]) -> list[str]:
     out = []
-    for w in list(keyword.kwlist) + list(getattr(keyword, "softkwlist", [])) + reserved:
+    for w in list(keyword.kwlist) + list(getattr(keyword, "softkwlist", [])) + reserved + ["Protocol", "Union", "Optional"]:
         out += [w, w.upper(), w.capitalize(), w.lower(), w + "_", "_" + w, w + "\n", w[:1].lower() + w[1:].upper(),
                 w + "2", w + "_2", " " + w + " ", w + "-" + w]
     return sorted(set(out))
@@ -612,7 +612,8 @@ def _main(chk: Check, impl: Impl, replay: dict | None) -> int:
     par_cases = [run_case(impl, "params", x) for x in par_inputs]
     mod_inputs = [c["input"]["arg"] for c in corpus if c["input"]["kind"] == "models"]
     mpool = ["foo", "Foo", "FOO", "foo_bar", "FooBar", "fooBar", "type", "Type_", "Type2", "Type3", "email", "Email_",
-             "none", "None", "true", "$", "1a", "a", "A", "a2", "A_2", "a_2", "é", "x y", "list", "List"]
+             "none", "None", "true", "$", "1a", "a", "A", "a2", "A_2", "a_2", "é", "x y", "list", "List", "Protocol",
+             "protocol", "Union", "UNION"]
     for names in combos(["foo", "Foo", "type", "Type2", "none", "$"], 60 * scale, 120 * scale):
         names = [n if rng.random() < 0.6 else rng.choice(mpool) for n in names]
         mod_inputs.append([n if n.strip() else "$" for n in names])
